@@ -32,7 +32,7 @@ def _vals(record):
     return out
 
 
-def _build(cfg, vals, distributed_config=None):
+def _build(cfg, vals, distributed_config=None, given_params=None):
     import torch
     from distributed_shampoo.distributed_shampoo import DistributedShampoo
     from distributed_shampoo.shampoo_types import AdaGradGraftingConfig, AdamGraftingConfig, RMSpropGraftingConfig, SGDGraftingConfig
@@ -49,13 +49,15 @@ def _build(cfg, vals, distributed_config=None):
                                                                         "rmsprop": RMSpropGraftingConfig(epsilon=hp("geps", 0.1), beta2=min(max(hp("gb2", 0.5), 1e-3), 1.0)),
                                                                         "adam": AdamGraftingConfig(epsilon=hp("geps", 0.1), beta2=min(max(hp("gb2", 0.5), 1e-3), 1.0))}[g])
     params = []
-    for i, shape in enumerate(cfg["params"]):
+    for i, shape in enumerate(cfg["params"] if given_params is None else []):
         import itertools
 
         t = torch.zeros(tuple(shape), dtype=torch.float64)
         for idx in itertools.product(*[range(s) for s in shape]):
             t[idx] = float(vals.get(f"w{i}_" + "_".join(map(str, idx)), 0.25 * (1 + sum(idx))))
         params.append(torch.nn.Parameter(t))
+    if given_params is not None:
+        params = list(given_params)
     b1 = min(max(hp("b1", 0.5), 0.0), 0.99)
     b3 = hp("b3", -1.0)
     opt = DistributedShampoo(params, lr=max(hp("lr", 0.25), 0.0), betas=(b1, min(max(hp("b2", 0.5), 1e-3), 1.0)), beta3=b3 if (b3 == -1.0 or 0 <= b3 < 1) else -1.0,
@@ -73,7 +75,7 @@ def _grads(cfg, vals, k):
 
     out = []
     for i, shape in enumerate(cfg["params"]):
-        if cfg.get("presence") == "symbolic" and not bool(vals.get(f"present_p{i}_s{k}", False)):
+        if cfg.get("presence") == "symbolic" and (cfg.get("presence_params") is None or i in cfg["presence_params"]) and not bool(vals.get(f"present_p{i}_s{k}", False)):
             out.append(None)
             continue
         t = torch.zeros(tuple(shape), dtype=torch.float64)
